@@ -107,6 +107,97 @@ type Ctx struct {
 	False  *Term
 	// uninterpreted function declarations: name -> (arg sorts, result sort)
 	ufs map[string]ufDecl
+	fv  map[*Term][]uint32
+}
+
+// freeVars returns the ids of the non-array free variables of t (sorted, memoised).
+func (c *Ctx) freeVars(t *Term) []uint32 {
+	if r, ok := c.fv[t]; ok {
+		return r
+	}
+	var out []uint32
+	if t.Op == OVar {
+		if t.S.K != KArr {
+			out = []uint32{t.id}
+		}
+	} else {
+		for _, a := range t.Args {
+			out = mergeIDs(out, c.freeVars(a))
+		}
+	}
+	c.fv[t] = out
+	return out
+}
+
+func mergeIDs(a, b []uint32) []uint32 {
+	if len(a) == 0 {
+		return b
+	}
+	if len(b) == 0 {
+		return a
+	}
+	out := make([]uint32, 0, len(a)+len(b))
+	i, j := 0, 0
+	for i < len(a) && j < len(b) {
+		switch {
+		case a[i] == b[j]:
+			out = append(out, a[i])
+			i++
+			j++
+		case a[i] < b[j]:
+			out = append(out, a[i])
+			i++
+		default:
+			out = append(out, b[j])
+			j++
+		}
+	}
+	out = append(out, a[i:]...)
+	out = append(out, b[j:]...)
+	return out
+}
+
+// relevant keeps the hypotheses connected to the goal through shared variables
+// (cone of influence). Dropping hypotheses is sound for an unsat answer.
+func (c *Ctx) relevant(hyps []*Term, goal *Term) []*Term {
+	seen := map[uint32]bool{}
+	for _, v := range c.freeVars(goal) {
+		seen[v] = true
+	}
+	inc := make([]bool, len(hyps))
+	dup := map[*Term]bool{}
+	changed := true
+	for changed {
+		changed = false
+		for i, h := range hyps {
+			if inc[i] {
+				continue
+			}
+			fv := c.freeVars(h)
+			hit := len(fv) == 0
+			for _, v := range fv {
+				if seen[v] {
+					hit = true
+					break
+				}
+			}
+			if hit {
+				inc[i] = true
+				changed = true
+				for _, v := range fv {
+					seen[v] = true
+				}
+			}
+		}
+	}
+	var out []*Term
+	for i, h := range hyps {
+		if inc[i] && !dup[h] {
+			dup[h] = true
+			out = append(out, h)
+		}
+	}
+	return out
 }
 
 type ufDecl struct {
@@ -115,7 +206,7 @@ type ufDecl struct {
 }
 
 func NewCtx() *Ctx {
-	c := &Ctx{tab: map[string]*Term{}, ufs: map[string]ufDecl{}}
+	c := &Ctx{tab: map[string]*Term{}, ufs: map[string]ufDecl{}, fv: map[*Term][]uint32{}}
 	c.True = c.mk(OConst, Bool, 1, "", nil)
 	c.False = c.mk(OConst, Bool, 0, "", nil)
 	return c
